@@ -155,7 +155,7 @@ pub fn run(ctx: &Ctx) -> Report {
     } else {
         let mut v = vec![];
         for m in [ClvmFlags::empty(), ClvmFlags::NEW_COST_MODEL, ClvmFlags::MALACHITE, ClvmFlags::NEW_COST_MODEL | ClvmFlags::MALACHITE] {
-            for e in [ClvmFlags::empty(), enables, ClvmFlags::ENABLE_KECCAK_OPS_OUTSIDE_GUARD, ClvmFlags::ENABLE_SECP_OPS | ClvmFlags::ENABLE_SHA256_TREE] {
+            for e in [ClvmFlags::empty(), enables] {
                 for g in [ClvmFlags::empty(), ClvmFlags::ENABLE_GC] {
                     v.push(m | e | g);
                 }
